@@ -230,6 +230,9 @@ impl InnerNodeManage {
         self.history_ranges
             .push((self.current_range.clone(), now_millis()));
         self.current_range = new_range;
+        //the naming actor supervises the heartbeats of the services in this range: it has to learn the new range
+        //also when it changed because a node became unavailable or available again
+        self.refresh_process_range();
     }
 
     fn clear_timeout_process_range(&mut self) {
